@@ -1,14 +1,19 @@
 """C16 A signed transaction can take effect at most once (DESIGN.md §5 C16)."""
 import os, sys
 sys.path.insert(0, os.path.dirname(os.path.abspath(__file__)))
+import importlib.util
 import ante_common
 import verif
+
+_spec = importlib.util.spec_from_file_location("c16wire", os.path.join(os.path.dirname(os.path.abspath(__file__)), "_c16wire.py"))
+c16wire = importlib.util.module_from_spec(_spec)
+_spec.loader.exec_module(c16wire)
 
 META = dict(
     engine="E-CHAIN",
     technique="Lean 4 proof (invariant over arbitrary histories of DeliverTx / block end / other state changes: replay guard = in-block cache keyed by raw bytes + tx-indexer lookup by hash of raw bytes, fed with every non-ante-level result) + transition checking against the real PocketCoreApp with resubmitted and re-encoded byte strings",
-    level_text="Kernel-checked theorems for all histories, decoders, hash functions and handlers: the same byte string changes state in at most one DeliverTx (same_bytes_once); the same statement for 'same decoded content' is false (same_content_once_fails: counterexample theorem; reproduced on the real app for five re-encoding classes, same block and later block) and holds when the delivered encodings are canonical (same_content_once_partial). Every run resubmits earlier byte strings unchanged and re-encoded to the real app and evaluates 'executed at most once' on the implementation's own state changes; the model's indexer feed rule is compared with the real indexer's answers.",
-    level_note="Trusted: Lean kernel; axioms propext, Classical.choice, Quot.sound; the Go harness and the driver's parser. Assumptions of same_bytes_once: message handlers never return codespace auth with code < 10 (regenerated source fact), the indexer is fed after each block (Tendermint's job, done by the harness). Which byte strings decode to the same signed content is the subject of Props/C16wire (codec package); here the decoder is a parameter.",
+    level_text="Kernel-checked theorems for all histories, decoders, hash functions and handlers: the same byte string changes state in at most one DeliverTx (same_bytes_once); the same statement for 'same decoded content' is false (same_content_once_fails: counterexample theorem; byte-level witnesses reencode_replays in Props/C16wire; reproduced on the real app for 17 re-encoding classes, same block and later block) and holds when the delivered encodings are canonical (same_content_once_partial). Every run resubmits earlier byte strings unchanged and re-encoded to the real app and evaluates 'executed at most once' on the implementation's own state changes; the model's indexer feed rule is compared with the real indexer's answers.",
+    level_note="Trusted: Lean kernel; axioms propext, Classical.choice, Quot.sound; the Go harness and the driver's parser. Assumptions of same_bytes_once: message handlers never return codespace auth with code < 10 (regenerated source fact), the indexer is fed after each block (Tendermint's job, done by the harness). Which byte strings decode to the same signed content is established by Props/C16wire + stream c16wire (codec package, run by this check); in Props/C16 the decoder is a parameter.",
 )
 
 DRIVER = "Driver/C16.lean"
@@ -18,11 +23,13 @@ def run(ctx):
     ante_common.constants(ctx, verif.REPO)
     ante_common.no_ante_codes_elsewhere(ctx, verif.REPO)
     ctx.lean_proofs("Props.C16")
-    ctx.rule("c16: real app as in c15. Core: for each re-encoding class {appended unknown field, non-minimal length prefix, non-minimal entropy "
-             "varint, non-minimal field tag, repeated scalar field (last wins)}: original + variant + original again in one block, and "
-             "original in one block then variant + original in the next. Random: 30% unchanged resubmissions and 30% re-encodings of any of the "
-             "last 400 byte strings (also of failed ones and of variants), rest fresh txs (15 message kinds, 8% signature and fee defects), "
-             "blocks of 1-4 txs. non-trivial = the real ante handler passed; distinct = distinct trace line")
+    c16wire.run(ctx, n=None if ctx.thorough else 400)   # byte-level half (codec package): Props.C16wire + the real decoder on rewritten frames
+    ctx.rule("c16: real app as in c15. Re-encodings come from the byte-level rewriter harness/internal/wirerw (the one judged against the real "
+             "decoder in stream c16wire): 25 classes, 17 content-preserving, 8 that must be rejected or change the content. Core: for each class "
+             "original + variant + original again in one block, and original in one block then variant + original in the next. Random: 30% "
+             "unchanged resubmissions and 30% re-encodings of any of the last 400 byte strings (also of failed ones and of variants), rest fresh "
+             "txs (15 message kinds, 8% signature and fee defects), blocks of 1-4 txs. non-trivial = the real ante handler passed; distinct = "
+             "distinct trace line")
     ctx.trust(*ante_common.COMMON_TRUST)
     ctx.assume("the tx indexer is fed with every block's results before the next block (the harness does what Tendermint's indexer service does)")
     n = 4000 if ctx.thorough else 330
@@ -33,5 +40,6 @@ def run(ctx):
 
 
 def search(ctx):
+    c16wire.search(ctx)
     for s in range(3):
         ctx.stream(f"search{s}", "c16", DRIVER, n=400, seed=ctx.seed * 7919 + s, count=False, timeout=3000, drv_timeout=3000)
